@@ -53,7 +53,7 @@ Fixpoint sort_desc (l : list term) : list term :=
   match l with [] => [] | t :: r => ins_desc t (sort_desc r) end.
 
 Fixpoint maxsum (l : list term) : Z := match l with [] => 0 | t :: r => tc t + maxsum r end.
-Definition tlit (t : term) : lit := (User (tv t), ts t).
+Definition tlit (t : term) : literal := (User (tv t), ts t).
 
 (* ---- isclause (repaired: a bound of 0 is a tautology only for ">=") ---- *)
 Definition is_ge (o : cmp) : bool := match o with GE => true | _ => false end.
